@@ -1,18 +1,34 @@
 #!/bin/bash
-# run every stored seeded change against the check of its own property; one line per seed
+# Run every stored seeded change against the check that reports it (meta.json `verif_result`: the seed's own property, or the
+# property named after "reported by"); one line per seed with the expectation next to the outcome.
+# Patches /repo and undoes each patch: never run while another check, `vp check` or `vp run` is using /repo.
 cd /verif
 OUT=${1:-/verif/seeded/SCOREBOARD.txt}
 : > $OUT
 for d in seeded/*/; do
   n=$(basename $d)
   [ -f $d/patch.diff ] || continue
-  p=$(python3 -c "import json;print(json.load(open('$d/meta.json'))['property'])")
+  read p want <<< $(python3 - "$d/meta.json" <<'PY'
+import json,re,sys
+m=json.load(open(sys.argv[1]))
+own=m['property']
+vr=m.get('verif_result','') or ''
+if vr.startswith('missed') or 'not reported' in vr[:40]:
+    print(own, 'missed')
+else:
+    r=re.search(r'reported by (C\d\d)', vr)
+    print(r.group(1) if r else own, 'exit=1')
+PY
+)
   if ! git -C /repo apply --check /verif/$d/patch.diff 2>/dev/null; then echo "$n $p patch-does-not-apply" >> $OUT; continue; fi
   git -C /repo apply /verif/$d/patch.diff
   s=$(date +%s)
   ./check $p > /tmp/seedboard_$n.log 2>&1; rc=$?
   git -C /repo checkout -- .
   h=$(grep -E '^  [a-zA-Z_.0-9]+ \[|^  kani ' /tmp/seedboard_$n.log | sed -E 's/^  ([a-zA-Z_.0-9 ]+).*/\1/' | sort -u | head -4 | tr '\n' ',')
-  echo "$n $p exit=$rc $(( $(date +%s)-s ))s viol=$(grep -c '^VIOLATION' /tmp/seedboard_$n.log) harnesses=$h inconclusive=$(grep -c '^INCONCLUSIVE' /tmp/seedboard_$n.log)" >> $OUT
+  verdict=OK
+  if [ "$want" = "exit=1" ] && [ $rc -ne 1 ]; then verdict=REGRESSION; fi
+  echo "$n check=$p expected=$want got=exit=$rc $verdict $(( $(date +%s)-s ))s viol=$(grep -c '^VIOLATION' /tmp/seedboard_$n.log) harnesses=$h inconclusive=$(grep -c '^INCONCLUSIVE' /tmp/seedboard_$n.log)" >> $OUT
 done
+git -C /repo status --short >> $OUT
 echo DONE >> $OUT
